@@ -36,97 +36,97 @@ func base() gen.Profile { return gen.Base() }
 func props() map[string]*PropSpec {
 	m := map[string]*PropSpec{}
 	add := func(p *PropSpec) { m[p.ID] = p }
-	add(&PropSpec{ID: "C01", Level: "exploration", Steps: [2]int{40, 160}, QuickN: 2400, ThorN: 60000,
+	add(&PropSpec{ID: "C01", Level: "exploration", Steps: [2]int{40, 160}, QuickN: 24000, ThorN: 1200000,
 		Profile: base().With(map[string]float64{"tx:transfer": 20, "tx:nft": 22, "tx:multi": 28, "tx:create": 10, "tx:mint": 2, "tx:skv": 0.5, "tx:owner": 0.3, "tx:claim": 0.3, "tx:username": 0.3,
 			"tx:adversarial": 2, "ev:deliver": 36, "sc:freeze": 4, "sc:pause": 2, "p:adv-token": 0.12, "p:fault": 0.03}),
 		Rule:    "seeded multi-shard histories of transfers, deliveries and refunds; a case is one oracle-judged call; distinct = distinct (function, side, outcome class, input, pre-state hash); non-trivial = the call reached real function code (parsed, registered, active)",
 		MustHit: []string{"ESDTTransfer/snd/ok", "ESDTTransfer/dst/ok", "ESDTNFTTransfer/snd/ok", "ESDTNFTTransfer/dst/ok", "MultiESDTNFTTransfer/snd/ok", "MultiESDTNFTTransfer/dst/ok", "refund-executed"},
 		Faults:  "reorder/delay, refusal+refund (frozen/paused/non-payable at delivery), stale per-shard control state, dependency failure+rollback, node restart"})
-	add(&PropSpec{ID: "C02", Level: "exploration", Steps: [2]int{40, 140}, QuickN: 2400, ThorN: 60000,
+	add(&PropSpec{ID: "C02", Level: "exploration", Steps: [2]int{40, 140}, QuickN: 24000, ThorN: 1200000,
 		Profile: base().With(map[string]float64{"tx:mint": 14, "tx:lburn": 14, "tx:burn": 10, "tx:create": 14, "tx:addqty": 12, "tx:nftburn": 12, "sc:freeze": 6, "sc:wipe": 6, "sc:unfreeze": 2,
 			"p:adv-amount": 0.45, "tx:skv": 0.5, "tx:adversarial": 2}),
 		Rule:    "seeded histories heavy in mint/burn/create/add-quantity/NFT-burn/wipe with amounts drawn relative to the current holding (0, 1, holding-1, holding, holding+1, 2^64-1, 2^64, 100/101-byte values); case/distinct as for C01",
 		MustHit: []string{"ESDTLocalMint/snd/ok", "ESDTLocalBurn/snd/ok", "ESDTBurn/snd/ok", "ESDTNFTCreate/snd/ok", "ESDTNFTAddQuantity/snd/ok", "ESDTNFTBurn/snd/ok", "ESDTWipe/dst/ok", "ESDTLocalBurn/snd/err-required", "ESDTNFTBurn/snd/err-required"},
 		Faults:  "reorder/delay of control messages, dependency failure+rollback, node restart"})
-	add(&PropSpec{ID: "C03", Level: "exploration", Steps: [2]int{40, 140}, QuickN: 2400, ThorN: 60000,
+	add(&PropSpec{ID: "C03", Level: "exploration", Steps: [2]int{40, 140}, QuickN: 24000, ThorN: 1200000,
 		Profile: base().With(map[string]float64{"tx:forged": 16, "tx:mint": 8, "tx:lburn": 8, "tx:create": 10, "tx:addqty": 8, "tx:nftburn": 8, "tx:adduri": 8, "tx:updattr": 8, "tx:owner": 8, "tx:claim": 8, "tx:username": 8,
 			"sc:setrole": 14, "sc:unsetrole": 8, "sc:handover": 6, "tx:transfer": 3, "tx:nft": 3, "tx:multi": 3}),
 		Rule:    "seeded histories in which every role-gated function is called by holders of arbitrary role subsets (incl. all-but-the-required one and the role for another token), control functions by users/contracts/DNS, owner/DNS functions by owners, ex-owners and strangers; case/distinct as for C01",
 		MustHit: []string{"ESDTLocalMint/snd/err-required", "ESDTNFTCreate/snd/err-required", "ESDTFreeze/dst/err-required", "ESDTSetRole/dst/err-required", "ChangeOwnerAddress/snd/err-required", "SetUserName/dst/err-required", "ESDTNFTCreateRoleTransfer/snd/err-required"},
 		Faults:  "reorder/delay of role set/unset/hand-over control messages relative to the operations they authorise, node restart"})
-	add(&PropSpec{ID: "C04", Level: "exploration", Steps: [2]int{40, 160}, QuickN: 2400, ThorN: 60000,
+	add(&PropSpec{ID: "C04", Level: "exploration", Steps: [2]int{40, 160}, QuickN: 24000, ThorN: 1200000,
 		Profile: base().With(map[string]float64{"sc:freeze": 12, "sc:unfreeze": 7, "sc:pause": 7, "sc:unpause": 6, "sc:wipe": 4, "tx:transfer": 14, "tx:nft": 14, "tx:multi": 16, "tx:mint": 8, "tx:lburn": 6, "tx:burn": 4,
 			"tx:create": 8, "tx:addqty": 6, "tx:nftburn": 6, "tx:adduri": 4, "tx:updattr": 4, "ev:sc": 18, "tx:skv": 0.3}),
 		Rule:    "seeded histories interleaving freeze/unfreeze/pause/unpause/wipe control messages (per shard, independently delayed) with every balance-changing function on both sides; case/distinct as for C01",
 		MustHit: []string{"ESDTFreeze/dst/ok", "ESDTUnFreeze/dst/ok", "ESDTPause/dst/ok", "ESDTUnPause/dst/ok", "ESDTTransfer/snd/err-required", "ESDTTransfer/dst/err-required", "refund-executed"},
 		Faults:  "stale per-shard pause/freeze state (control messages delayed independently per shard), refusal+refund, reorder/delay"})
-	add(&PropSpec{ID: "C05", Level: "exploration", Steps: [2]int{30, 120}, QuickN: 2400, ThorN: 60000,
+	add(&PropSpec{ID: "C05", Level: "exploration", Steps: [2]int{30, 120}, QuickN: 24000, ThorN: 1200000,
 		Profile: base().With(map[string]float64{"tx:skv": 30, "p:adv-token": 0.2, "tx:adversarial": 8}),
 		Rule:    "seeded histories; SaveKeyValue with keys of every prefix relation to ELROND incl. live token/role/counter keys, contract callers, foreign recipients; the exact changed-set (frame) check runs on every call of every history; case/distinct as for C01",
 		MustHit: []string{"SaveKeyValue/snd/ok", "SaveKeyValue/snd/err-required"},
 		Faults:  "reorder/delay, dependency failure+rollback"})
-	add(&PropSpec{ID: "C06", Level: "exploration", Steps: [2]int{30, 120}, QuickN: 2000, ThorN: 50000,
+	add(&PropSpec{ID: "C06", Level: "exploration", Steps: [2]int{30, 120}, QuickN: 24000, ThorN: 1200000,
 		Profile: base().With(map[string]float64{"p:adv-gas": 0.5, "probe:gas": 0.12, "tx:skv": 12, "tx:claim": 5, "tx:owner": 5, "tx:username": 5, "ev:sched": 3}),
 		Rule:    "seeded histories with adversarial gas (0, charge-1, charge, charge+1, 2^64-1) and gas-sweep forks: a sampled call is re-executed from a snapshot with every value of the gas pool around the charge the oracle computed; both execution sides; per-run random schedules",
 		MustHit: []string{"gas-sweep-calls", "SaveKeyValue/snd/ok"},
 		Faults:  "gas-schedule changes (accepted and rejected), gas sweep on snapshots"})
-	add(&PropSpec{ID: "C07", Level: "exploration", Steps: [2]int{50, 180}, QuickN: 2400, ThorN: 60000,
+	add(&PropSpec{ID: "C07", Level: "exploration", Steps: [2]int{50, 180}, QuickN: 24000, ThorN: 1200000,
 		Profile: base().With(map[string]float64{"tx:create": 30, "sc:handover": 14, "ev:redeliver": 6, "tx:nftburn": 6, "tx:nft": 8, "tx:multi": 4, "sc:setrole": 10, "ev:sc": 16, "tx:transfer": 2, "tx:skv": 0.3}),
 		Rule:    "seeded histories of create / burn latest / transfer away / hand over (same shard, cross shard, message delayed behind other traffic, message redelivered later) / create again, several tokens per creator; case/distinct as for C01",
 		MustHit: []string{"ESDTNFTCreate/snd/ok", "handover-same-shard", "handover-cross-shard", "handover-redelivered"},
 		Faults:  "delay of the hand-over message, duplicate delivery of the hand-over message, node restart, dependency failure+rollback"})
-	add(&PropSpec{ID: "C08", Level: "exploration", Steps: [2]int{40, 160}, QuickN: 2400, ThorN: 60000,
+	add(&PropSpec{ID: "C08", Level: "exploration", Steps: [2]int{40, 160}, QuickN: 24000, ThorN: 1200000,
 		Profile: base().With(map[string]float64{"tx:create": 22, "tx:nft": 24, "tx:multi": 20, "tx:adduri": 8, "tx:updattr": 8, "tx:transfer": 2, "sc:setrole": 10}),
 		Rule:    "seeded histories: creates with empty/large fields, 0..n URIs, boundary royalties; chains of single/multi, same-/cross-shard hops; AddURI/UpdateAttributes between hops; transfers into accounts holding the same nonce with equal/different hash; production protobuf codec end to end",
 		MustHit: []string{"ESDTNFTCreate/snd/ok", "ESDTNFTTransfer/dst/ok", "MultiESDTNFTTransfer/dst/ok", "ESDTNFTAddURI/snd/ok", "ESDTNFTUpdateAttributes/snd/ok"},
 		Faults:  "reorder/delay, refusal+refund, node restart"})
-	add(&PropSpec{ID: "C09", Level: "exploration", Steps: [2]int{40, 140}, QuickN: 2400, ThorN: 60000,
+	add(&PropSpec{ID: "C09", Level: "exploration", Steps: [2]int{40, 140}, QuickN: 24000, ThorN: 1200000,
 		Profile: base().With(map[string]float64{"tx:transfer": 22, "tx:nft": 22, "tx:multi": 26, "p:contract-caller": 0.5, "p:call": 0.45, "p:adv-dest": 0.2, "tx:create": 8, "p:fault": 0.04}),
 		Rule:    "seeded histories of transfers to payable / non-payable / erroring contracts, users, metachain, self and wrong-length addresses, all call types, with and without attached call, both execution sides; payability truth is the simulator's table, not the handler",
 		MustHit: []string{"ESDTTransfer/dst/err-required", "ESDTNFTTransfer/snd/err-required", "MultiESDTNFTTransfer/dst/err-required", "MultiESDTNFTTransfer/snd/err-required"},
 		Faults:  "erroring payability lookups (table state and injected IsPayable failures), refusal+refund, reorder/delay"})
-	add(&PropSpec{ID: "C10", Level: "exploration", Steps: [2]int{40, 140}, QuickN: 2400, ThorN: 60000,
+	add(&PropSpec{ID: "C10", Level: "exploration", Steps: [2]int{40, 140}, QuickN: 24000, ThorN: 1200000,
 		Profile: base().With(map[string]float64{"tx:transfer": 22, "tx:nft": 22, "tx:multi": 28, "p:call": 0.5, "p:contract-caller": 0.45, "tx:username": 5, "sc:handover": 5, "tx:create": 8}),
 		Rule:    "every emitted data string of every history is parsed by the real call-arguments parser and compared with what the explained diff expects; the real ESDT-transfer parser's report for every accepted transfer call (both sides) is compared with what the ledger moved; continuations must be accepted by the destination shard",
 		MustHit: []string{"MultiESDTNFTTransfer/dst/ok", "ESDTNFTTransfer/dst/ok", "ESDTTransfer/dst/ok"},
 		Faults:  "reorder/delay, refusal+refund"})
-	add(&PropSpec{ID: "C11", Level: "exploration", Steps: [2]int{30, 120}, QuickN: 2400, ThorN: 60000,
+	add(&PropSpec{ID: "C11", Level: "exploration", Steps: [2]int{30, 120}, QuickN: 24000, ThorN: 1200000,
 		Profile: base().With(map[string]float64{"tx:adversarial": 40, "tx:forged": 10, "p:adv-amount": 0.5, "p:adv-token": 0.3, "p:adv-dest": 0.25, "p:adv-gas": 0.3}),
 		Rule:    "seeded histories dominated by adversarial transactions (0..12 arguments from the adversarial pools) against states reached through real calls, with the transaction-reachable account-presence patterns and protocol-generated destination-side inputs; every call runs under recover with result-shape and allocation checks",
 		MustHit: []string{"MultiESDTNFTTransfer/snd/err", "ESDTNFTTransfer/snd/err"},
 		Faults:  "reorder/delay, dependency failure+rollback"})
-	add(&PropSpec{ID: "C12", Level: "exploration", Steps: [2]int{30, 100}, QuickN: 2000, ThorN: 40000,
+	add(&PropSpec{ID: "C12", Level: "exploration", Steps: [2]int{30, 100}, QuickN: 24000, ThorN: 1200000,
 		Profile: base().With(map[string]float64{"ev:corrupt": 14, "p:call": 0.5, "tx:adversarial": 10}),
 		Rule:    "REDUCED SCOPE: only simulated traffic. Every transaction string (built by the real builder), every emitted message and fault-corrupted copies of both (truncation, flipped bit, non-hex character, inserted/removed separator, upper-case hex) go through the real call-args, ESDT-transfer, deploy and storage-update parsers under recover and are compared with the documented grammar; per-call storage diffs are re-parsed by the storage-updates parser. The exhaustive enumeration of all short strings is not attempted.",
 		MustHit: []string{"corrupt-inflight-copy"},
 		Faults:  "corruption of in-flight copies (discarded afterwards)"})
-	add(&PropSpec{ID: "C13", Level: "exploration", Steps: [2]int{30, 100}, QuickN: 1600, ThorN: 40000,
+	add(&PropSpec{ID: "C13", Level: "exploration", Steps: [2]int{30, 100}, QuickN: 16000, ThorN: 800000,
 		Profile: base().With(map[string]float64{"probe:double": 0.35}),
 		Rule:    "sampled calls of seeded histories are executed four times from equal snapshots (same function objects twice, another goroutine, freshly built container) and the canonical serialisation of (output, post-state) compared; every call's input is laid out in one buffer with spare capacity and canary bytes and compared after the call",
 		MustHit: []string{"double-exec-calls"},
 		Faults:  "node restart (fresh function objects), repetition on reused instances"})
-	add(&PropSpec{ID: "C14", Level: "exploration", Steps: [2]int{30, 120}, QuickN: 2000, ThorN: 40000,
+	add(&PropSpec{ID: "C14", Level: "exploration", Steps: [2]int{30, 120}, QuickN: 24000, ThorN: 1200000,
 		Profile: base().With(map[string]float64{"ev:corrupt": 10, "tx:create": 20, "tx:nft": 12, "tx:multi": 12, "sc:setrole": 10, "sc:issue": 8}),
 		Rule:    "REDUCED SCOPE: values that simulated histories store or ship. Every Marshal through the codec seam is compared byte for byte with an independent encoder of the documented wire format, with Size(), with a second Marshal and with Unmarshal(Marshal(x)); stored values hit by corruption faults (flipped bit, truncation, extension) are decoded under recover. Negative amounts and exhaustive small-buffer enumeration are not attempted.",
 		MustHit: []string{"corrupt-stored-value"},
 		Faults:  "corruption of stored values: flipped bit, truncation (torn write), extension (decoded and discarded)"})
-	add(&PropSpec{ID: "C15", Level: "exploration", Steps: [2]int{150, 400}, QuickN: 800, ThorN: 20000,
+	add(&PropSpec{ID: "C15", Level: "exploration", Steps: [2]int{150, 400}, QuickN: 6000, ThorN: 250000,
 		Profile: base().With(map[string]float64{"p:adv-token": 0.12, "ev:redeliver": 1.5, "sc:handover": 4}),
 		Rule:    "long seeded random walks (150-400 events) with all operation kinds; after every event every account on every shard is scanned and decoded by the oracle's own decoder and the representation invariants and the supply equation are evaluated",
 		MustHit: []string{"ESDTNFTCreate/snd/ok", "ESDTFreeze/dst/ok", "ESDTWipe/dst/ok", "handover-cross-shard"},
 		Faults:  "all world fault kinds: reorder/delay, refusal+refund, stale control state, dependency failure+rollback, restart, epoch regression, rejected schedules, duplicate hand-over delivery"})
-	add(&PropSpec{ID: "C16", Level: "exploration", Steps: [2]int{40, 140}, QuickN: 2000, ThorN: 50000,
+	add(&PropSpec{ID: "C16", Level: "exploration", Steps: [2]int{40, 140}, QuickN: 24000, ThorN: 1200000,
 		Profile: base().With(map[string]float64{"ev:sched": 9, "ev:restart": 2, "p:adv-gas": 0.05, "tx:skv": 8, "tx:owner": 5, "tx:claim": 5, "tx:username": 5, "tx:mint": 6, "tx:lburn": 6, "tx:burn": 5, "tx:create": 10,
 			"tx:addqty": 6, "tx:nftburn": 6, "tx:adduri": 6, "tx:updattr": 6}),
 		Rule:    "seeded histories of accepted and rejected (zero / missing entry in either sub-map) schedule changes per shard with pairwise distinct entries, restarts, and charging-side executions of all 15 priced functions with varied argument sizes; the charge of every successful call is compared with the schedule that shard last accepted",
 		MustHit: []string{"rejected-schedule", "node-restart", "ESDTNFTCreate/snd/ok", "SaveKeyValue/snd/ok", "MultiESDTNFTTransfer/snd/ok", "ESDTNFTAddURI/snd/ok"},
 		Faults:  "gas-schedule changes (accepted, rejected), node restart"})
-	add(&PropSpec{ID: "C17", Level: "fault_enumeration", Steps: [2]int{30, 90}, QuickN: 900, ThorN: 20000,
+	add(&PropSpec{ID: "C17", Level: "fault_enumeration", Steps: [2]int{30, 90}, QuickN: 16000, ThorN: 800000,
 		Profile: base().With(map[string]float64{"probe:faults": 0.5, "p:fault": 0.0}),
 		Rule:    "for sampled successful calls of seeded histories (all functions, both sides) the call is first executed on a snapshot to count its dependency calls per kind, then re-executed once per (kind, k) with the k-th call of that kind failing: an enumeration of fault points per scenario; a case is one (call, kind, k)",
 		MustHit: []string{"fault-point:trie_write", "fault-point:load_account", "fault-point:save_account", "fault-point:marshal", "fault-point:unmarshal", "fault-point:is_payable", "fault-point:add_to_balance", "fault-point:change_owner", "fault-point:claim_rewards"},
 		Faults:  "k-th data-trie write / account load / account save / marshal / unmarshal / payability query / balance / owner / reward operation fails; storage reads and the pause lookup injected as fail-soft (shape only)"})
-	add(&PropSpec{ID: "C18", Level: "exploration", Steps: [2]int{40, 120}, QuickN: 1600, ThorN: 40000,
+	add(&PropSpec{ID: "C18", Level: "exploration", Steps: [2]int{40, 120}, QuickN: 24000, ThorN: 1200000,
 		Profile: base().With(map[string]float64{"ev:epoch": 14, "ev:restart": 3, "tx:adduri": 8, "tx:updattr": 8, "tx:multi": 14, "p:epoch-regress": 0.5}),
 		Rule:    "clock scripts (regressions, repeats, jumps, 0 and 2^32-1) on the stub epoch notifier inside seeded histories plus a bounded enumeration of all scripts up to length 4 over a small epoch domain and the 32-bit boundaries; IsActive of all 23 registered functions is compared with the model after every notification and every restart; every call goes through container.Get(name) and is judged by the contract of that name",
 		MustHit: []string{"epoch-regression", "epoch-repeat", "epoch-jump", "node-restart", "inactive"},
